@@ -101,6 +101,8 @@ def run(ctx: Ctx):
     ctx.ob("R5.1", f, "pre-flight: `not %s` and `exchange_map is None` for every complete species" % cc, t_empty and t_maps,
            "extrapolating with nothing to map, or before every species' exchange map exists, raises before any file is created",
            node=chk_loops[0] if chk_loops else f.node)
+    from ..util import persistent_state
+    persistent_state(ctx, "R5.8", [f_ for f_ in (ctx.repo.func(q_, required=False) for q_ in ('Manager.extrapolate_system', 'Manager.complete_correspondence@get', 'Manager.calculate_exchange_maps')) if f_ is not None], "extrapolating a system")
 
     _r5_7(ctx)
     res_ = _r5_2_to_4(ctx, f, cfg, dom, pm, op, cc)
